@@ -81,6 +81,18 @@ def risky_families():
     return F
 
 
+class PrequeryBuilder(B.Builder):
+    def S(self, n):
+        obj = super().S(n)
+        try:
+            if hasattr(obj, "degree"):
+                obj.degree
+                obj.is_linear()
+        except Exception:
+            pass
+        return obj
+
+
 def info(tier):
     return {
         "level": LEVEL,
@@ -89,7 +101,7 @@ def info(tier):
         "Expression.is_linear, the iterative traversal, Problem._is_linear_problem) is refuted or not by the "
         "(d+1)-th finite difference of the reference along 3 random rational lines (exact when rational); "
         "non-trivial = >=2 operator nodes" % len(risky_families()),
-        "required_cells": [f"{fam}|recursive" for fam, _ in risky_families()] + [f"{fam}|iterative" for fam, _ in risky_families()],
+        "required_cells": [f"{fam}|{r}" for fam, _ in risky_families() for r in ("recursive", "iterative", "recursive-prequeried", "iterative-prequeried")],
         "assumptions": [
             "Schwartz-Zippel: a non-polynomial / higher-degree rational function has a non-zero (d+1)-th difference on "
             "random rational lines with overwhelming probability",
@@ -159,7 +171,7 @@ def run_case(case, rec, rng):
 
     def bad(route, what, reported, ex=None):
         if what == "under-reports":
-            under.setdefault(route.split(":")[0], []).append((route, reported))
+            under.setdefault(route.split(":")[0].replace("-prequeried", "") + ("+prior-degree-queries" if "prequeried" in route else ""), []).append((route, reported))
             return
         rec.violation(f"{route}:{what}", {"case": case, "route": route, "reported": reported,
                                           "error": repr(ex)[:300] if ex is not None else None, "show": show})
@@ -181,13 +193,15 @@ def run_case(case, rec, rng):
         if v:
             bad(route, "under-reports", d)
 
-    for cellroute in ("recursive", "iterative"):
+    for cellroute in ("recursive", "iterative", "recursive-prequeried", "iterative-prequeried"):
         old = AN._RECURSION_THRESHOLD
         try:
-            if cellroute == "iterative":
+            if cellroute.startswith("iterative"):
                 AN._RECURSION_THRESHOLD = 1
             try:
-                b = B.Builder(decls)
+                # "prequeried": every sub-expression is classified (and caches its degree on the node) as soon as it is
+                # built, like a user inspecting pieces of a model before assembling it
+                b = (PrequeryBuilder if cellroute.endswith("prequeried") else B.Builder)(decls)
                 e = b.S(node)
             except Exception as ex:
                 rec.events["unsupported-build:" + type(ex).__name__] += 1
